@@ -234,6 +234,9 @@ class Type3Tag(nfc.tag.Tag):
 
         def _write_ndef_data(self, data):
             attributes = self._read_attribute_data()
+            if attributes is None:
+                # the attribute block was unreadable or failed the checksum
+                raise Type3TagCommandError(nfc.tag.RECEIVE_ERROR)
             attributes['writef'] = 0x0F
             self._write_attribute_data(attributes)
 
